@@ -133,10 +133,11 @@ class Engine:
                 'ident': rng.choice(idents), 'with_size': rng.random() < 0.35, 'style': style,
                 'early': style == 'se' and rng.random() < 0.3, 'align': 0}
 
-    def make_case(self, rng, s, root=None, maxdepth=None, size=1.0, klass=None, opts=None, styles=True, nested_bias=False, gen_api=False, embed_bias=None, full=False, nest_only=False):
+    def make_case(self, rng, s, root=None, maxdepth=None, size=1.0, klass=None, opts=None, styles=True, nested_bias=False, gen_api=False, embed_bias=None, full=False, nest_only=False, embed_top=None, embed_ws=None, embed_min_depth=1):
         root = root or s.root
         vg = bu.ValueGen(s, rng, maxdepth=maxdepth if maxdepth is not None else rng.choice([1, 2, 2, 3]), size=size)
         if embed_bias is not None: vg.embed_bias = embed_bias
+        if embed_ws is not None: vg.embed_ws_bias = embed_ws
         vg.full = full
         if root in s.tables:
             node = vg.table(root, 0)
@@ -146,6 +147,8 @@ class Engine:
         g.gen_api = gen_api and s.name in self.HG
         g.corder = self.corder.get(s.name)
         g.thash = self.thash.get(s.name)
+        g.embed_min_depth = embed_min_depth
+        if embed_top is not None: g.embed_top_bias = embed_top      # nested fields of the top-level buffer filled by embed_buffer (depth 1)
         if full: g.create_bias = 1.0
         if nest_only: g.nest_only = True; g.create_bias = 0.0
         o = dict(opts or self.toplevel_opts(rng, s, root))
@@ -222,6 +225,56 @@ class Engine:
             for name, f in futs.items():
                 for (i, _), r in zip(per[name], f.result()): out[i] = r
         return out
+
+    # ------------------------------------------------------------------ embed_buffer without a parent buffer
+    def embed_no_parent(self, rng, count, key_prefix=''):
+        """flatcc_builder_embed_buffer with NO buffer open (level 0; flatcc_builder.h: "If the buffer is embedded without a parent buffer, it
+        will simply emit the buffer through the emit interface, but may also add padding up to block alignment. At top-level there will be
+        no size field header"): model / implementation byte for byte, and on the implementation's bytes: they start with the embedded
+        bytes, the generated verifier accepts them at an address aligned to the reported alignment, the independent decoder returns the value."""
+        ctx = self.ctx
+        recs = []
+        for s in self.corpus:
+            if s.name not in self.BC: continue
+            for i in range(count):
+                vg = bu.ValueGen(s, rng, maxdepth=rng.choice([1, 2]), size=0.3)
+                root = rng.choice([s.root] + list(s.structs))
+                node = vg.table(root, 0) if root in s.tables else bu.Node('bytes', vg.inline(root), root)
+                enc = bu.IndepEncoder(s, rng, extra_pad=False)
+                data = enc.buffer(root, node, False, None)
+                ea = rng.choice([0, 1, 2, 4, 8, 16, 32, 64, 128, 256])
+                al = ea if max(ea, 4) >= enc.maxal else enc.maxal
+                ba, sba, cl = rng.choice([0, 0, 1, 4, 16, 64, 256]), rng.choice([0, 0, 0, 2, 8, 32, 128]), rng.choice([0, 1])
+                fl = 2 if rng.random() < 0.2 else 0
+                ops = 'X:%d:%d:%s M:%d:%d:%d:%s' % (cl, sba, '%s', ba, al, fl, data.hex())
+                recs.append((s, root, node, data, max(al, 4, ba or sba or 1), fl, 'build ' + ops % '-', 'run ' + ops % '0'))
+        hres = lib.run_harness_resilient(self.H, [r[6] for r in recs])
+        mres = ctx.run_model('builder', [r[7] for r in recs])
+        ver, dec, meta = [], [], []
+        for (s, root, node, data, al, fl, h, m), hr, mr in zip(recs, hres, mres):
+            ctx.count(h, klass='build:embed-no-parent')
+            hi = parse_reply(hr)
+            base = {'harness_line': h, 'model_line': m, 'schema': s.name, 'impl': (hr or '')[:1500], 'model': mr[:1500]}
+            if hi is None:
+                ctx.violation(key_prefix + 'build-failed:embed-no-parent', 'embed_buffer without a parent buffer fails or crashes: ' + (hr or '')[:300], base); continue
+            raw = hi['raw']
+            if raw[:len(data)] != data:
+                ctx.violation(key_prefix + 'embed-no-parent-header', 'embed_buffer without a parent buffer does not emit the bytes as they are (no size field header is documented)', base); continue
+            if hi['align'] < al or hi['align'] % al:
+                ctx.violation(key_prefix + 'embed-no-parent-alignment', 'embed_buffer without a parent buffer: reported alignment %d, requested %d' % (hi['align'], al), base); continue
+            if hr != mr:
+                ctx.violation('corr:build:embed-no-parent', 'model and implementation disagree on embed_buffer without a parent buffer', base); continue
+            if fl: continue            # with_size without a parent: only the padding changes (no size field is written); correspondence only
+            ver.append((s.name, self.verify_lines(s, root, 0, None, hi['align'], raw)[0][0])); dec.append(self.dec_line(s, root, 0, bu.value_depth(node) + 2, hi['align'], raw))
+            meta.append((s, node, base))
+        vres = self.run_bc_all(ver)
+        dres = ctx.run_model('builder', dec) if dec else []
+        for (name, vl), vr, dl, dr, (s, node, base) in zip(ver, vres, dec, dres, meta):
+            if vr is not None and not vr.startswith('0 '):
+                ctx.violation(key_prefix + 'embed-no-parent-rejected', 'bytes emitted by embed_buffer without a parent buffer are rejected by the generated verifier: ' + vr[:200], dict(base, verify_line=vl))
+            elif dr != bu.render_dec(s, node):
+                ctx.violation(key_prefix + 'embed-no-parent-decodes-differently', 'bytes emitted by embed_buffer without a parent buffer do not decode to the embedded value', dict(base, dec_line=dl[:3000]))
+        return len(recs)
 
     # ------------------------------------------------------------------ classification helpers
     @staticmethod
